@@ -39,7 +39,7 @@ def make_info(name, flags, chi2, names=None, fluxes=True, meta=None, av=None, sc
     info.av = np.array(av, dtype=float) if av is not None else np.arange(n) * 0.5 + 0.25
     info.sc = np.array(sc, dtype=float) if sc is not None else -np.arange(n) * 0.125 + 1.0
     info.model_id = np.array(ids) if ids is not None else np.arange(n)[::-1].copy()
-    info.model_name = np.array(names if names is not None else ['m%03d' % i for i in range(n)], dtype='S30')
+    info.model_name = np.array(names if names is not None else ['m%03d' % i for i in range(n)], dtype='U30')
     info.model_fluxes = (np.arange(n * len(flags), dtype=float).reshape(n, len(flags)) + 0.5) if fluxes else None
     info.meta = meta if meta is not None else make_meta()
     return info
